@@ -8,6 +8,7 @@ mod cfg;
 mod icpt;
 mod net;
 mod sub;
+mod tpw;
 mod trace;
 
 use cfg::Cfg;
